@@ -14,6 +14,18 @@ pub fn monitors_for(prop: &str) -> Vec<Box<dyn Monitor>> {
         "C03" => vec![Box::new(mon::basic::C03::default())],
         "C08" => vec![Box::new(mon::basic::C08::default())],
         "C10" => vec![Box::new(mon::basic::C10::default())],
+        "C04" => vec![Box::new(mon::econ::C04::default())],
+        "C05" => vec![Box::new(mon::econ::C05::default())],
+        "C06" => vec![Box::new(mon::econ::C06::default())],
+        "C07" => vec![Box::new(mon::econ2::C07::default())],
+        "C11" => vec![Box::new(mon::econ2::C11::default())],
+        "C12" => vec![Box::new(mon::econ2::C12::default())],
+        "C14" => vec![Box::new(mon::rules::C14::default())],
+        "C15" => vec![Box::new(mon::rules::C15::default())],
+        "C16" => vec![Box::new(mon::rules::C16::default())],
+        "C17" => vec![Box::new(mon::rules::C17::default())],
+        "C18" => vec![Box::new(mon::rules::C18::default())],
+        "C20" => vec![Box::new(mon::rules::C20::default())],
         _ => vec![],
     }
 }
@@ -24,6 +36,47 @@ pub fn profile_for(prop: &str, _tier: &str) -> Profile {
         "C08" => {
             p.faulted = true;
             p.steps = (60, 160);
+        }
+        "C14" => {
+            p.w_ops = [20, 8, 5, 6, 8, 6, 3, 8, 30, 1, 0];
+            p.w_macro = [0, 2, 1, 0, 0, 8, 0, 0, 0, 0, 0];
+            p.extra_vamm_pct = 50;
+            p.heal_pct = 8;
+            p.shutdown_pct = 60;
+            p.max_vamms = 3;
+        }
+        "C15" => {
+            p.fluct_pct = 100;
+            p.w_macro = [0, 1, 0, 12, 2, 0, 2, 0, 0, 0, 0];
+            p.macro_pct = 25;
+            p.partial_choices = vec![0, 250_000, 500_000, 950_000, 1_000_000, 250_000];
+        }
+        "C16" => {
+            p.w_macro = [0, 10, 0, 0, 6, 0, 1, 0, 0, 0, 0];
+            p.macro_pct = 25;
+            p.w_ops = [30, 14, 3, 3, 16, 2, 4, 8, 2, 1, 0];
+        }
+        "C17" => {
+            p.w_macro = [0, 1, 0, 1, 0, 0, 2, 0, 0, 14, 0];
+            p.macro_pct = 30;
+        }
+        "C18" => {
+            p.w_ops = [36, 10, 2, 2, 6, 3, 3, 30, 2, 1, 0];
+        }
+        "C20" => {
+            p.w_ops = [30, 8, 3, 3, 6, 2, 3, 10, 30, 1, 0];
+            p.w_macro = [0, 1, 0, 0, 0, 2, 2, 1, 0, 0, 12];
+            p.macro_pct = 20;
+            p.extra_vamm_pct = 50;
+            p.mismatch_decimals_pct = 80;
+        }
+        "C06" | "C07" => {
+            p.w_macro = [0, 14, 3, 1, 2, 0, 1, 0, 0, 0, 0];
+            p.macro_pct = 25;
+        }
+        "C11" => {
+            p.w_macro = [0, 2, 14, 0, 0, 0, 3, 0, 2, 0, 0];
+            p.macro_pct = 25;
         }
         _ => {}
     }
